@@ -623,6 +623,9 @@ func c20SameCodeTwice(c *core.Ctx) bool {
 }
 
 func (c20) RunCase(c *core.Ctx) {
+	if c.Case == 9 && !w10(c, "C20") {
+		return
+	}
 	if c.Case == 5 && !c20SameCodeTwice(c) {
 		return
 	}
